@@ -85,3 +85,24 @@ mut("cache-health-route", ["C20"], [(BIN, ".configure(|cfg| server.config(cfg))"
 mut("cache-directive-no-cache", ["C20"], [(LIB, "(\"Cache-Control\", \"no-store, max-age=0\")", "(\"Cache-Control\", \"no-cache, max-age=0\")")], "C20.WRAP", "directive allows storage")
 mut("cache-wrap-removed", ["C20"], [(LIB, "                .wrap(\n                    middleware::DefaultHeaders::new().add((\"Cache-Control\", \"no-store, max-age=0\")),\n                )\n", "")], "C20.WRAP", "wrap removed")
 mut("cache-handler-override", ["C20"], [(GS, ".content_type(SNAPSHOT_CONTENT_TYPE)", ".content_type(SNAPSHOT_CONTENT_TYPE)\n            .append_header((\"Cache-Control\", \"max-age=3600\"))")], "C20.NOOVERRIDE", "handler sets own cache-control")
+
+# ---- C10
+mut("snap-window-4", ["C10"], [(SRV, "const SNAPSHOT_SEARCH_LEN: i32 = 5;", "const SNAPSHOT_SEARCH_LEN: i32 = 4;")], "C10", "window 4")
+mut("snap-window-6", ["C10"], [(SRV, "const SNAPSHOT_SEARCH_LEN: i32 = 5;", "const SNAPSHOT_SEARCH_LEN: i32 = 6;")], "C10", "window 6")
+mut("snap-lt-zero", ["C10"], [(SRV, "if search_len <= 0 || vid == NIL_VERSION_ID {", "if search_len < 0 || vid == NIL_VERSION_ID {")], "C10", "off by one exit test")
+mut("snap-drop-g0", ["C10"], [(SRV, "        if Some(version_id) == last_snapshot {\n            log::debug!(\"rejecting snapshot for version {version_id}: already exists\");\n            return Ok(());\n        }\n", "")], "C10", "G0 removed")
+mut("snap-drop-g2", ["C10"], [(SRV, "            if Some(vid) == last_snapshot {\n                // the new snapshot is older than the last snapshot, so ignore it\n                log::debug!(\"rejecting snapshot for version {version_id}: newer snapshot already exists or no such version\");\n                return Ok(());\n            }\n", "")], "C10", "G2 removed: snapshot may move backwards")
+mut("snap-drop-nil", ["C10"], [(SRV, "if vid == version_id && version_id != NIL_VERSION_ID {", "if vid == version_id {")], "C10", "nil snapshot accepted")
+mut("snap-store-latest", ["C10", "C11"], [(SRV, "            Snapshot {\n                version_id,\n                timestamp: Utc::now(),", "            Snapshot {\n                version_id: client.latest_version_id,\n                timestamp: Utc::now(),")], "C10", "stores latest instead of v")
+mut("snap-counter-not-reset", ["C10", "C12"], [(SRV, "                versions_since: 0,\n            },\n            data,", "                versions_since: client.snapshot.as_ref().map(|s| s.versions_since).unwrap_or(0),\n            },\n            data,")], "C10", "counter not reset")
+mut("snap-decrement-first", ["C10"], [(SRV, "        loop {\n            if vid == version_id && version_id != NIL_VERSION_ID {", "        loop {\n            search_len -= 1;\n            if vid == version_id && version_id != NIL_VERSION_ID {")], "C10", "double decrement")
+mut("snap-decline-resets-counter", ["C10", "C18"], [(SRV, "                log::warn!(\"rejecting snapshot for version {version_id}: version is too old or no such version\");\n                return Ok(());", "                log::warn!(\"rejecting snapshot for version {version_id}: version is too old or no such version\");\n                if let Some(s) = client.snapshot { txn.set_snapshot(Snapshot { versions_since: 0, ..s }, vec![])?; txn.commit()?; }\n                return Ok(());")], "C1", "decline path writes")
+
+# ---- C11
+mut("snap-two-statements", ["C11"], [(SQL, "               versions_since_snapshot = ?,\n               snapshot = ?\n             WHERE client_id = ?\",\n                params![\n                    &StoredUuid(snapshot.version_id),\n                    snapshot.timestamp.timestamp(),\n                    snapshot.versions_since,\n                    data,\n                    &StoredUuid(self.client_id),\n                ],\n            )\n            .context(\"Error creating/updating snapshot\")?;",
+     "               versions_since_snapshot = ?\n             WHERE client_id = ?\",\n                params![\n                    &StoredUuid(snapshot.version_id),\n                    snapshot.timestamp.timestamp(),\n                    snapshot.versions_since,\n                    &StoredUuid(self.client_id),\n                ],\n            )\n            .context(\"Error creating/updating snapshot\")?;\n        self.con.execute(\"COMMIT\", [])?;\n        self.con.execute(\"BEGIN IMMEDIATE\", [])?;\n        self.con.execute(\"UPDATE clients SET snapshot = ? WHERE client_id = ?\", params![data, &StoredUuid(self.client_id)])?;")],
+    "C11", "metadata and data in two transactions")
+mut("snap-cols-swapped", ["C11"], [(SQL, "let snapshot_timestamp: Option<i64> = r.get(1)?;\n                    let versions_since_snapshot: Option<u32> = r.get(2)?;", "let snapshot_timestamp: Option<i64> = r.get(2)?;\n                    let versions_since_snapshot: Option<u32> = r.get(1)?;")], "C11.META", "columns swapped")
+mut("snap-crosscheck-removed", ["C11"], [(SQL, "            if v != version_id {\n                return Err(anyhow::anyhow!(\"unexpected snapshot_version_id\"));\n            }\n", "            let _ = v;\n")], "C11.READ", "cross-check removed")
+mut("snap-data-second-txn", ["C11", "C03"], [(SRV, "            txn.get_snapshot_data(snap.version_id)?\n                .map(|data| (snap.version_id, data))", "            { drop(txn); let mut txn2 = self.storage.txn(client_id)?; txn2.get_snapshot_data(snap.version_id)? }\n                .map(|data| (snap.version_id, data))")], "C11", "data read in a second transaction")
+mut("snap-millis", ["C11", "C19"], [(SQL, "snapshot.timestamp.timestamp(),", "snapshot.timestamp.timestamp_millis(),")], "C11.WRITE", "milliseconds written")
